@@ -15,6 +15,9 @@ func ZZNoInfraError(shape int) {
 	if shape == 5 {
 		kind = 4
 	}
+	if shape == 7 {
+		kind = 3
+	}
 	m := zzSeqState(kind)
 	d := zzNewDB(m, 10)
 	pk := "pk"
@@ -43,6 +46,8 @@ func ZZNoInfraError(shape int) {
 		req.Puts = append(req.Puts, &proto.PutRequest{Key: "p", Value: []byte("v"), PartitionKey: &pk, SequenceKeyDelta: []uint64{delta}})
 	case 4: // fewer deltas than the existing key has suffixes
 		seqShape = true
+		req.Puts = append(req.Puts, &proto.PutRequest{Key: "p", Value: []byte("v"), PartitionKey: &pk, SequenceKeyDelta: []uint64{1}})
+	case 7: // a sequence whose current suffix is above 2^63 (reached with large but valid deltas)
 		req.Puts = append(req.Puts, &proto.PutRequest{Key: "p", Value: []byte("v"), PartitionKey: &pk, SequenceKeyDelta: []uint64{1}})
 	case 5: // an ordinary record "p--5" exists under the sequence prefix
 		seqShape = true
